@@ -22,13 +22,14 @@ def sh(cmd, cwd=None, timeout=3600):
 def main():
     prop, i = sys.argv[1], sys.argv[2]
     checks = sys.argv[3:] or [prop]
-    src = "/tmp/mut/%s/mutations" % prop
+    src = "%s/%s/mutations" % (os.environ.get("SEED_SRC", "/tmp/mut"), prop)
+    off = int(os.environ.get("SEED_OFFSET", "0"))
     diff = os.path.join(src, "m%s.diff" % i)
     demo = os.path.join(src, "m%s_demo_test.go" % i)
     md = os.path.join(src, "m%s.md" % i)
-    out = os.path.join(VERIF, "seeded", "%s-m%s" % (prop, i))
+    out = os.path.join(VERIF, "seeded", "%s-m%d" % (prop, int(i) + off))
     os.makedirs(out, exist_ok=True)
-    meta = {"id": "%s-m%s" % (prop, i), "property": prop, "source": "independent sub-agent given only the property text and a scratch worktree",
+    meta = {"id": "%s-m%d" % (prop, int(i) + off), "property": prop, "source": "independent sub-agent given only the property text and a scratch worktree",
             "confirmed": {}, "checks": {}}
     tags = "-tags verif" if "go:build verif" in open(demo).read() else ""
     if prop == "C17":
